@@ -269,6 +269,15 @@ def check_case(case: dict) -> Result:
     res = Result()
     n, limit, plus = case["n"], case["limit"], case["plus"]
     sim = Sim(n, limit, plus)
+    try:
+        return _check_case(case, sim, res)
+    finally:
+        sim.close()     # checkpoint directories never outlive a case, even when the code under test raises
+
+
+def _check_case(case: dict, sim: "Sim", res: Result) -> Result:
+    import numpy as np
+    n, limit, plus = case["n"], case["limit"], case["plus"]
     sim.check_structure(res)
     if res.failures:
         return res
@@ -303,7 +312,6 @@ def check_case(case: dict) -> Result:
         if it.get("save") and not res.failures:
             sim.save_load(res, f"n={n} limit={limit} plus={plus} after iteration {i + 1}")
             shadow = sim.shadow
-    sim.close()
     res.nontrivial = limit < sim.noc - 1 or nonuniform >= 2
     res.label(f"n={n}", f"limit={limit}", f"plus={plus}", f"iterations={len(case['iterations'])}")
     if limit < sim.noc - 1:
